@@ -43,7 +43,7 @@ type spec struct {
 	mode  string // "signed" | "unsigned" | "chunked" | "chunked-tr" | "unsigned-tr"
 	field string // integrity field under test
 	corr  string // corruption (fine grained; part of the case id)
-	state string // "new" | "existing"
+	state string // "new" | "existing" | "twin" (the key / part already holds the very body the corrupted request claims to carry)
 	rep   int    // repetition with other sizes / chunk layouts / offsets (thorough)
 }
 
@@ -111,7 +111,7 @@ func allSpecs1(strat string) []spec {
 	flipsPlain := []string{"flip-first", "flip-mid", "flip-last"}
 	flipsStream := []string{"flip-first", "flip-mid", "flip-last", "flip-bnd-before", "flip-bnd-after"}
 	for _, op := range []string{"put", "part"} {
-		for _, state := range []string{"new", "existing"} {
+		for _, state := range []string{"new", "existing", "twin"} {
 			for _, mode := range modes {
 				add := func(field, corr string) {
 					out = append(out, spec{strat, op, mode, field, corr, state, 0})
@@ -781,6 +781,11 @@ func (rn *runner) one(s spec) {
 	old := make([]byte, 1+c.Rng("old/"+id).Intn(5000))
 	c.Rng("old/" + id).Read(old)
 	old[len(old)-1] |= 1
+	if s.state == "twin" {
+		// the previous state is the uncorrupted body itself: what the corrupted request declares (digest, length) is
+		// true of what is stored already - the request must be judged by the bytes it carries all the same
+		old = append([]byte{}, p.payload...)
+	}
 
 	detail := map[string]any{"case": id, "payload_len": len(p.payload), "chunk_sizes": p.ctl.chunks, "expect": s.expectation()}
 	viol := func(outcome, why string) {
@@ -831,7 +836,7 @@ func (rn *runner) one(s spec) {
 		}
 		// ---- previous state
 		oldETag := ""
-		if s.state == "existing" {
+		if s.state != "new" {
 			pr := cl.PutObject(bucket, key, old)
 			if !pr.OK() {
 				rn.inconclusive("seed put failed", pr)
@@ -868,7 +873,13 @@ func (rn *runner) one(s spec) {
 			unchanged = g.OK() && bytes.Equal(g.Body, old) && g.Header.Get("ETag") == oldETag &&
 				h.OK() && h.Header.Get("Content-Length") == strconv.Itoa(len(old)) && h.Header.Get("ETag") == oldETag
 		}
-		rn.judge(s, p, recv, br.OK(), unchanged, g.OK(), g.Body, unq(g.Header.Get("ETag")), detail, viol)
+		haveNew := g.OK()
+		if s.state == "twin" && br.OK() && unchanged {
+			// accepted, and the key holds what it held before - which is also what an exact store of the uncorrupted
+			// body looks like: judged as stored content, not as "accepted but not stored"
+			unchanged = false
+		}
+		rn.judge(s, p, recv, br.OK(), unchanged, haveNew, g.Body, unq(g.Header.Get("ETag")), detail, viol)
 		return
 	}
 
@@ -988,7 +999,11 @@ func (rn *runner) one(s spec) {
 	if !listSame {
 		etag = use[0].ETag
 	}
-	rn.judge(s, p, recv, br.OK(), unchanged, !listSame && g.OK(), g.Body, etag, detail, viol)
+	haveNew := !listSame && g.OK()
+	if s.state == "twin" && br.OK() && unchanged {
+		unchanged, haveNew, etag = false, true, oldETag
+	}
+	rn.judge(s, p, recv, br.OK(), unchanged, haveNew, g.Body, etag, detail, viol)
 }
 
 // judge applies the oracle. accepted: the corrupted request was answered 2xx. unchanged: the key /
@@ -1156,7 +1171,8 @@ func Run(c *ev.Ctx) int {
 	nootmp := allSpecs("nootmp", reps)
 	if !c.Thorough() {
 		otmp = selectQuick(c, otmp, true, 200, func(s spec) bool {
-			return strings.HasSuffix(s.corr, "+company") || strings.HasSuffix(s.corr, "+empty-body") || strings.HasSuffix(s.corr, "+final-chunk-alone")
+			return strings.HasSuffix(s.corr, "+company") || strings.HasSuffix(s.corr, "+empty-body") || strings.HasSuffix(s.corr, "+final-chunk-alone") ||
+				s.state == "twin" && strings.HasPrefix(s.corr, "flip-")
 		})
 		nootmp = selectQuick(c, nootmp, false, 40, func(s spec) bool {
 			return s.field == "declen" || s.field == "chunksig" && strings.Contains(s.corr, "+")
